@@ -19,7 +19,7 @@ type MemSpec struct {
 	Scale   int // 0 = no scale written
 	Disp    int64
 	HasDisp bool
-	NegForm bool // write the displacement as "-m" instead of "+d"
+	NegForm bool   // write the displacement as "-m" instead of "+d"
 	Label   string // write the address as this label ("[lbl]"); Disp is then only the expected value
 }
 
